@@ -61,7 +61,12 @@ def describe(hist, start="t2"):
     return "[start=%s] " % start + "; ".join(step_ops(s)[0].get("sql", "reopen") for s in hist)
 
 
-def render(cid, hist, start="t2", with_s1=True):
+def has_s1(hist):
+    return "s1.t" in hist[0]["cont"]["tabs"]
+
+
+def render(cid, hist, start="t2", with_s1=None):
+    with_s1 = has_s1(hist) if with_s1 is None else with_s1
     ops = [{"k": "exec", "sql": s} for s in SETUP[start]]
     lay = {"nsetup": len(ops), "steps": [], "sel": {}, "obs": {}}
     tks = TKS if with_s1 else TKS[:1]
@@ -176,7 +181,8 @@ def row_shape(exp, got):
     return "+".join(sorted(pos)) or "order"
 
 
-def prefix_ok(hist, lay, res, upto, with_s1=True):
+def prefix_ok(hist, lay, res, upto, with_s1=None):
+    with_s1 = has_s1(hist) if with_s1 is None else with_s1
     tks = TKS if with_s1 else TKS[:1]
     for r in res[:lay["nsetup"]]:
         if "ok" not in r:
@@ -197,8 +203,9 @@ def prefix_ok(hist, lay, res, upto, with_s1=True):
     return None
 
 
-def compare_last(hist, lay, res, with_s1=True):
+def compare_last(hist, lay, res, with_s1=None):
     """-> (divergences against the state the model continues with, name of the post-state that matches completely or None)"""
+    with_s1 = has_s1(hist) if with_s1 is None else with_s1
     st = hist[-1]
     tks = TKS if with_s1 else TKS[:1]
     at, _ = lay["steps"][-1]
